@@ -25,5 +25,5 @@ HexLower(s) == IF s = <<>> THEN "" ELSE HexDigit(s[1] \div 16) \o HexDigit(s[1] 
 (* a deterministic, seed-dependent byte pattern (full period LCG mod 65537 folded to a byte) *)
 RECURSIVE LcgSeq(_, _)
 LcgSeq(x, n) == IF n = 0 THEN <<>> ELSE <<(x % 256)>> \o LcgSeq((x * 75 + 74) % 65537, n - 1)
-Pattern(seed, n) == LcgSeq((seed * 7919 + 13) % 65537, n)
+Pattern(seed, n) == LcgSeq(((seed % 65537) * 7919 + 13) % 65537, n)   \* seed reduced first: TLC integers are 32-bit
 =============================================================================
